@@ -25,6 +25,17 @@
 (* numbers of shares are transferable, the fraction stays with its owner.  *)
 (* In all other families frac, valFrac and fden are constantly 0.          *)
 (*                                                                         *)
+(* REWARD ENTITLEMENT: accrued[d][v] = number of reward-producing blocks   *)
+(* whose rewards the delegation of d at v has earned and not yet been paid. *)
+(* Every operation that changes a delegation's shares pays it out first,   *)
+(* so the delegation earned all of them ON ITS CURRENT SHARES: what d is   *)
+(* owed at v is  shares[d][v] * (rewards one share of v earned in the last *)
+(* accrued[d][v] reward blocks).  The rewards one share of v earns per     *)
+(* block are measured on a REFERENCE delegation that no modelled operation *)
+(* touches (the validator's genesis self-delegation); the projection       *)
+(* yields -1 when the rewards the real distribution module owes are not    *)
+(* such an amount for any whole number of blocks.                          *)
+(*                                                                         *)
 (* inv, pay, drain, exact are OBSERVATION registers: the harness evaluates *)
 (* the SDK's registered crisis invariants, the reward pay-out equation of  *)
 (* the last step and the "everybody withdraws and fully undelegates" drain *)
@@ -81,7 +92,7 @@ Init ==
   /\ valTokens = [v \in Validator |-> 2 * SharesAt(InitShares, v)]
   /\ den = [v \in Validator |-> 1]
   /\ allow = [v \in Validator |-> [o \in Delegator |-> [s \in Delegator |-> 0]]]
-  /\ accrued = [d \in Delegator |-> [v \in Validator |-> FALSE]]
+  /\ accrued = [d \in Delegator |-> [v \in Validator |-> 0]]
   /\ recv = [d \in Delegator |-> [v \in Validator |-> FALSE]]
   /\ ubd = [d \in Delegator |-> [v \in Validator |-> 0]]
   /\ inv = "ok" /\ pay = "ok" /\ drain = "ok" /\ exact = "ok"
@@ -110,7 +121,7 @@ Delegate(d, v, n) ==
      /\ valTokens' = [valTokens EXCEPT ![v] = @ + 2 * n]
      /\ frac' = [frac EXCEPT ![d][v] = @ + n * fden[v]]
      /\ valFrac' = [valFrac EXCEPT ![v] = @ + n * fden[v]]
-     /\ accrued' = [accrued EXCEPT ![d][v] = FALSE]
+     /\ accrued' = [accrued EXCEPT ![d][v] = 0]
      /\ Count("del") /\ op' = this /\ Obs
      /\ UNCHANGED <<den, fden, allow, recv, ubd>>
 
@@ -124,7 +135,7 @@ Undelegate(d, v, n) ==
      /\ valShares' = [valShares EXCEPT ![v] = @ - n * den[v]]
      /\ valTokens' = [valTokens EXCEPT ![v] = @ - 2 * n]
      /\ ubd' = [ubd EXCEPT ![d][v] = @ + n]
-     /\ accrued' = [accrued EXCEPT ![d][v] = FALSE]
+     /\ accrued' = [accrued EXCEPT ![d][v] = 0]
      /\ Count("und") /\ op' = this /\ Obs /\ NoFrac
      /\ UNCHANGED <<den, allow, recv>>
 
@@ -139,7 +150,7 @@ Redelegate(d, v, w, n) ==
      /\ valShares' = [valShares EXCEPT ![v] = @ - n * den[v], ![w] = @ + n * den[w]]
      /\ valTokens' = [valTokens EXCEPT ![v] = @ - 2 * n, ![w] = @ + 2 * n]
      /\ recv' = [recv EXCEPT ![d][w] = TRUE]
-     /\ accrued' = [accrued EXCEPT ![d][v] = FALSE, ![d][w] = FALSE]
+     /\ accrued' = [accrued EXCEPT ![d][v] = 0, ![d][w] = 0]
      /\ Count("red") /\ op' = this /\ Obs /\ NoFrac
      /\ UNCHANGED <<den, allow, ubd>>
 
@@ -148,7 +159,7 @@ Withdraw(d, v) ==
   LET this == Op("Withdraw", d, v, None, None, None, 0, "ok")
       okk  == Has(d, v)
   IN IF ~okk THEN Rej(this) ELSE
-     /\ accrued' = [accrued EXCEPT ![d][v] = FALSE]
+     /\ accrued' = [accrued EXCEPT ![d][v] = 0]
      /\ Count("wd") /\ op' = this /\ Obs /\ NoFrac
      /\ UNCHANGED <<shares, valShares, valTokens, den, allow, recv, ubd>>
 
@@ -164,7 +175,7 @@ XferOk(f, v, n) == n > 0 /\ shares[f][v] >= n /\ ~recv[f][v]
 XferEff(f, t, v, n) ==
   /\ IF f = t THEN UNCHANGED <<shares, accrued>>
      ELSE /\ shares' = [shares EXCEPT ![f][v] = @ - n, ![t][v] = @ + n]
-          /\ accrued' = [accrued EXCEPT ![f][v] = FALSE, ![t][v] = FALSE]
+          /\ accrued' = [accrued EXCEPT ![f][v] = 0, ![t][v] = 0]
   /\ UNCHANGED <<valShares, valTokens, den, recv, ubd>>
 
 (* transferShares(v, to, n shares) signed by f. *)
@@ -183,10 +194,11 @@ TransferFrom(s, v, f, t, n) ==
      /\ allow' = [allow EXCEPT ![v][f][s] = @ - n]
      /\ Count("xfrom") /\ op' = this /\ Obs /\ NoFrac
 
-(* a block that allocates rewards to both validators. *)
+(* a block that allocates rewards to both validators: every existing       *)
+(* delegation earns one more block's rewards on the shares it holds.       *)
 RewardTick ==
   LET this == Op("RewardTick", None, None, None, None, None, 0, "ok")
-  IN /\ accrued' = [d \in Delegator |-> [v \in Validator |-> Has(d, v)]]
+  IN /\ accrued' = [d \in Delegator |-> [v \in Validator |-> IF Has(d, v) THEN accrued[d][v] + 1 ELSE 0]]
      /\ Count("tick") /\ op' = this /\ Obs /\ NoFrac
      /\ UNCHANGED <<shares, valShares, valTokens, den, allow, recv, ubd>>
 
@@ -260,11 +272,32 @@ C11_AllowanceExact == [][A_C11_AllowanceExact]_vars
 
 \* after a transfer neither party has rewards outstanding: each was paid what had accrued
 A_C11_BothPaid ==
-  (OkXfer(op') /\ op'.f # op'.t) => ~accrued'[op'.f][op'.v] /\ ~accrued'[op'.t][op'.v]
+  (OkXfer(op') /\ op'.f # op'.t) => accrued'[op'.f][op'.v] = 0 /\ accrued'[op'.t][op'.v] = 0
 C11_BothPaid == [][A_C11_BothPaid]_vars
 \* ... and what each party received is exactly what it was owed (balance delta = rewards owed
 \* before - rewards owed after), evaluated by the harness on the real step
 C11_PaidExactly == pay = "ok"
+
+\* reward entitlements follow the shares (staking and distribution bookkeeping agree): what a delegation
+\* is owed is always what its CURRENT shares earned over a whole number of reward blocks (the projection
+\* gives -1 otherwise), and nothing is owed where there is no delegation
+C11_RewardsFollowShares ==
+  \A d \in Delegator, v \in Validator : accrued[d][v] >= 0 /\ (~Has(d, v) => accrued[d][v] = 0)
+\* entitlements are conserved: a reward block adds exactly one block's rewards on the shares held at that
+\* moment to every delegation; any other operation leaves every entitlement as it is, except that the
+\* delegations it acts on (delegator d at v / w, or from and to of a transfer) may be paid out in full
+Party(o, d, v) ==
+  \/ o.name \in {"Delegate", "Undelegate", "Withdraw"} /\ d = o.d /\ v = o.v
+  \/ o.name = "Redelegate" /\ d = o.d /\ v \in {o.v, o.w}
+  \/ IsXfer(o) /\ d \in {o.f, o.t} /\ v = o.v
+A_C11_EntitlementConserved ==
+  /\ (op'.name = "RewardTick" /\ op'.res = "ok") =>
+        \A d \in Delegator, v \in Validator : accrued'[d][v] = IF Has(d, v) THEN accrued[d][v] + 1 ELSE 0
+  /\ op'.name # "RewardTick" =>
+        \A d \in Delegator, v \in Validator :
+           \/ accrued'[d][v] = accrued[d][v]
+           \/ accrued'[d][v] = 0 /\ op'.res = "ok" /\ Party(op', d, v)
+C11_EntitlementConserved == [][A_C11_EntitlementConserved]_vars
 
 \* only staking operations move stake; a refused operation changes nothing
 A_C11_OnlyStakeOpsMoveStake ==
